@@ -222,3 +222,89 @@ Proof. vm_compute. reflexivity. Qed.
 Example C07_rejects_example :
   rfc_token (H "612062"%string) = false /\ samesite_legal (H "666f6f"%string) = false /\ is_none (H "4e4f4e45"%string) = true.
 Proof. vm_compute. repeat split; reflexivity. Qed.
+
+(* ================================================================== the expires date is no longer abstract *)
+(* Model/C07_CookieDate.v models serialize_cookie_date (as repaired by fixes/C07-5-cookie-date-year-padding.patch):
+   [cd_fields] is the formatting step
+   time.strftime("%%s, %d-%%s-%%04d %H:%M:%S GMT", v) % (weekdays[v[6]], months[v[1]], v[0]) over the tables regenerated from
+   the source (Gen/C07_dates.v), [cd_of_ts] the datetime/int/timedelta paths from the instant utcnow()+v in seconds.
+   [fields_ok]: weekday < 7, 1 <= day <= 31, 1 <= month <= 12, year <= 9999, hour < 24, minute < 60, second <= 61. *)
+Require Import Webob.Gen.C07_dates Webob.Model.C07_CookieDate Webob.Proofs.C07_cookiedate.
+
+(* for EVERY time tuple in the ranges Python produces: a text is rendered; it is printable ASCII without
+   semicolon, double quote or backslash ([plain]) and it is a [cookie_date]: the expires alternative of webob's own
+   scanner takes it whole *)
+Theorem C07_rendered_date_hypotheses : forall w d m y hh mi ss, fields_ok w d m y hh mi ss = true ->
+  exists s, cd_fields w d m y hh mi ss = Ok s /\ plain s = true /\ forallb printable s = true /\ cookie_date s = true.
+Proof. exact cd_fields_hyps. Qed.
+Print Assumptions C07_rendered_date_hypotheses.
+
+(* every instant a datetime can hold, 0001-01-01T00:00:00 .. 9999-12-31T23:59:59 (whole seconds since the epoch),
+   through the civil-from-days arithmetic *)
+Theorem C07_rendered_instant_hypotheses : forall t, (ts_min <= t <= ts_max)%Z ->
+  exists s, cd_of_ts t = Ok s /\ plain s = true /\ forallb printable s = true /\ cookie_date s = true.
+Proof. exact cd_of_ts_hyps. Qed.
+Print Assumptions C07_rendered_instant_hypotheses.
+
+(* the defect repaired by fixes/C07-5: with the year through strftime's %Y (not padded by glibc) the date of a year 1..9
+   (reachable: max_age=timedelta(days=-739000)) is not taken by the expires alternative of webob's own scanner *)
+Theorem C07_cookie_date_unpadded_year_refuted :
+  exists s, fields_ok 0 9 6 3 17 23 17 = true /\ cd_fields_unpadded 0 9 6 3 17 23 17 = Ok s /\ plain s = true /\ cookie_date s = false.
+Proof. exact cookie_date_unpadded_year_refuted. Qed.
+Print Assumptions C07_cookie_date_unpadded_year_refuted.
+
+(* C07_one_cookie_exact_attrs, C07_set_cookie_text_exact and C07_webob_reads_own_line instantiated with the rendered
+   date: no hypothesis about the date text is left, only that its fields are in Python's ranges *)
+Theorem C07_one_cookie_exact_attrs_dated : forall validate r line w d m y hh mi ss,
+  req_octets r -> fields_ok w d m y hh mi ss = true -> cd_fields w d m y hh mi ss = Ok (r_date r) ->
+  make_cookie validate r = Ok line ->
+  forallb printable line = true /\ ref_parse line = Some (r_name r, value_octets r, requested r).
+Proof. exact one_cookie_exact_attrs_dated. Qed.
+Print Assumptions C07_one_cookie_exact_attrs_dated.
+
+Theorem C07_set_cookie_text_exact_dated : forall validate r t b line w d m y hh mi ss,
+  r_value r = CText t -> utf8_encode t = Some b ->
+  opt_octets (r_path r) -> opt_octets (r_domain r) -> opt_octets (r_comment r) ->
+  fields_ok w d m y hh mi ss = true -> cd_fields w d m y hh mi ss = Ok (r_date r) ->
+  set_cookie validate r = Ok line ->
+  forallb printable line = true /\ ref_parse line = Some (r_name r, b, requested (with_value r (CBytes b))).
+Proof. exact set_cookie_text_exact_dated. Qed.
+Print Assumptions C07_set_cookie_text_exact_dated.
+
+Theorem C07_webob_reads_own_line_dated : forall validate r line w d m y hh mi ss,
+  req_octets r -> fields_ok w d m y hh mi ss = true -> cd_fields w d m y hh mi ss = Ok (r_date r) ->
+  make_cookie validate r = Ok line ->
+  parse_cookie_raw line = (r_name r, value_octets r) :: valued_attrs (requested r)
+  /\ parse_cookie line = [(r_name r, value_octets r)]
+  /\ exists mo, cookie_load line = [(r_name r, mo)] /\ pm_name mo = r_name r /\ pm_value mo = value_octets r.
+Proof. exact webob_reads_own_line_dated. Qed.
+Print Assumptions C07_webob_reads_own_line_dated.
+
+(* the max_age path: the date is rendered from the instant utcnow()+max_age, whatever datetime can hold *)
+Theorem C07_make_cookie_at_instant : forall validate r line t,
+  req_octets r -> (ts_min <= t <= ts_max)%Z -> cd_of_ts t = Ok (r_date r) ->
+  make_cookie validate r = Ok line ->
+  (forallb printable line = true /\ ref_parse line = Some (r_name r, value_octets r, requested r))
+  /\ parse_cookie line = [(r_name r, value_octets r)].
+Proof. exact make_cookie_at_instant. Qed.
+Print Assumptions C07_make_cookie_at_instant.
+
+(* the hypotheses are satisfiable: the example request's date is what the model renders for Thu 2026-10-01 19:00:01,
+   from its fields and from its instant; the first second of year 1 *)
+Example C07_dated_example :
+  fields_ok 3 1 10 2026 19 0 1 = true /\ cd_fields 3 1 10 2026 19 0 1 = Ok (r_date example_request)
+  /\ (ts_min <= 1790881201 <= ts_max)%Z /\ cd_of_ts 1790881201 = Ok (r_date example_request)
+  /\ cd_of_ts 0 = Ok (H "5468752c2030312d4a616e2d313937302030303a30303a303020474d54"%string)
+  /\ cd_of_ts ts_min = Ok (H "4d6f6e2c2030312d4a616e2d303030312030303a30303a303020474d54"%string).
+Proof. vm_compute. repeat split; try reflexivity; discriminate. Qed.
+
+(* the regenerated name tables are the RFC ones (Mon..Sun with Monday = weekday 0; Jan..Dec at index 1..12) *)
+Theorem C07_date_tables_rfc :
+  map Ok weekdays = map (fun w => weekday_name w) [0; 1; 2; 3; 4; 5; 6]
+  /\ weekdays = [H "4d6f6e"%string; H "547565"%string; H "576564"%string; H "546875"%string;
+                 H "467269"%string; H "536174"%string; H "53756e"%string]
+  /\ map month_name [1; 2; 3; 4; 5; 6; 7; 8; 9; 10; 11; 12]
+     = map Ok [H "4a616e"%string; H "466562"%string; H "4d6172"%string; H "417072"%string; H "4d6179"%string; H "4a756e"%string;
+               H "4a756c"%string; H "417567"%string; H "536570"%string; H "4f6374"%string; H "4e6f76"%string; H "446563"%string].
+Proof. exact (conj eq_refl (conj weekdays_rfc eq_refl)). Qed.
+Print Assumptions C07_date_tables_rfc.
